@@ -25,10 +25,29 @@ type Profile struct {
 	Names                                                              []string
 	MinOps, MaxOps                                                     int
 	ReadBack                                                           bool // GET metadata+media after every mutation
+	BigPayload                                                         int  // bytes of the payload every upload of the profile carries (0 = the usual small ones)
+}
+
+// bigPayload: n bytes that are not periodic in any power of two.
+func bigPayload(n int) []byte {
+	out := make([]byte, n)
+	for i := range out {
+		out[i] = byte(i % 251)
+	}
+	return out
+}
+
+func (g *Gen) payload() []byte {
+	if g.P.BigPayload > 0 {
+		return bigPayload(g.P.BigPayload + g.R.Intn(3))
+	}
+	return core.Pick(g.R, Payloads)
 }
 
 var Profiles = map[string]Profile{
 	"c02":    {Name: "c02", Upload: 40, Resumable: 25, GetMeta: 8, GetMedia: 12, Delete: 10, List: 3, MkBucket: 2, CondPct: 8, Names: SafeNames, MinOps: 6, MaxOps: 30, ReadBack: true},
+	// payloads beyond every buffer size in sight (10 MiB + a bit): one upload per protocol, read back
+	"c02big": {Name: "c02big", Upload: 60, Resumable: 40, CondPct: 0, Names: SafeNames[:3], MinOps: 2, MaxOps: 3, ReadBack: true, BigPayload: 10<<20 + 4096},
 	"c04":    {Name: "c04", Upload: 30, Resumable: 10, Patch: 20, Delete: 15, Compose: 15, GetMeta: 5, CondPct: 85, Names: SafeNames[:4], MinOps: 8, MaxOps: 30, ReadBack: true},
 	"c09":    {Name: "c09", Upload: 30, Resumable: 8, Patch: 12, Delete: 10, Compose: 6, Copy: 8, GetMeta: 5, GetMedia: 5, List: 8, MkBucket: 3, RmBucket: 2, GetBucket: 2, CondPct: 20, Names: SafeNames, MinOps: 8, MaxOps: 40, ReadBack: true},
 	"c09r":   {Name: "c09r", Upload: 30, Resumable: 8, Patch: 12, Delete: 10, Compose: 6, Copy: 8, GetMeta: 5, GetMedia: 5, List: 8, MkBucket: 3, RmBucket: 2, Reopen: 10, GetBucket: 2, CondPct: 20, Names: SafeNames, MinOps: 8, MaxOps: 40, ReadBack: true},
@@ -108,7 +127,7 @@ func dedupKV(l []KV) []KV {
 }
 
 func (g *Gen) UploadOp(b, n string) *Op {
-	o := &Op{Kind: "upload", B: b, N: n, Content: core.Pick(g.R, Payloads), Declared: "none", Conds: g.conds(false), URLForm: g.R.Intn(2)}
+	o := &Op{Kind: "upload", B: b, N: n, Content: g.payload(), Declared: "none", Conds: g.conds(false), URLForm: g.R.Intn(2)}
 	if g.R.Chance(1, 2) {
 		o.Proto = "media"
 		o.Meta = Meta{CT: core.Pick(g.R, CTs[:4])}
@@ -123,8 +142,35 @@ func (g *Gen) UploadOp(b, n string) *Op {
 }
 
 // Resumable emits an initiation and a chunk sequence for one payload.
+// Resumable emits an initiation and a chunk sequence for one payload, now and then followed by
+// requests to the session after its final chunk (accepted or rejected): the final range once more, a
+// stale earlier range, a status query.
 func (g *Gen) Resumable(b, n string) []core.Op {
-	p := core.Pick(g.R, Payloads)
+	ops := g.resumable(b, n)
+	last, ok := ops[len(ops)-1].(*Op)
+	if !ok || last.Kind != "reschunk" || !g.R.Chance(1, 3) {
+		return ops
+	}
+	var lo, hi, sz int
+	if c, _ := fmt.Sscanf(last.Range, "%d %d %d", &lo, &hi, &sz); c != 3 || sz < 0 {
+		return ops // the sequence did not end with a finalising request
+	}
+	for k := 1 + g.R.Intn(2); k > 0; k-- {
+		switch g.R.Intn(3) {
+		case 0:
+			again := *last
+			ops = append(ops, &again)
+		case 1:
+			ops = append(ops, &Op{Kind: "reschunk", B: b, Idx: last.Idx, Range: "0 0 -1", RawRange: "bytes 0-0/*", Content: []byte("Z")})
+		default:
+			ops = append(ops, &Op{Kind: "reschunk", B: b, Idx: last.Idx, Range: "-1 -1 -1", RawRange: "bytes */*"})
+		}
+	}
+	return ops
+}
+
+func (g *Gen) resumable(b, n string) []core.Op {
+	p := g.payload()
 	g.sessions++
 	idx := g.sessions
 	init := &Op{Kind: "resinit", B: b, N: n, Content: p, Meta: g.meta(true), Declared: core.Pick(g.R, []string{"none", "none", "ok", "wrong"}), Conds: g.conds(false)}
